@@ -95,6 +95,7 @@ AcceptCall(e) ==
                         /\ Len(e.types) = Len(table)                       \* one entry per reachable identity
                         /\ C05_Once
     [] Check = "C11" -> IsPrefix(prev, e.types)
+    [] Check = "X02" -> TRUE
 TReturn == /\ Quiescent /\ ret # NoRet /\ HasPending
            /\ LET j == Pending IN
               /\ IF Check = "C05" THEN EvalsOK(j) ELSE j = l
@@ -111,9 +112,23 @@ AcceptFinal(e) ==
     [] Check = "C01" -> WellFormed(e.types) /\ ResolveProbesOK(e)
     [] Check = "C05" -> Len(e.types) = Len(table)
     [] Check = "C11" -> e.types = prev
+    [] Check = "X02" -> TRUE
 TFinal == /\ Quiescent /\ ret = NoRet /\ Ev("Final") /\ AcceptFinal(Rec[l])
           /\ l' = l + 1 /\ UNCHANGED <<info, table, types, stack, evals, ret, prev, seen>>
 
+\* --- X02 (extension, not a listed property): Registry => Builder.  Feeding the entries of a produced registry, in
+\* order, to the run-time builder interns them BY VALUE: the builder's table is the sequence of first occurrences of
+\* the entry bodies, each entry gets the index of the first occurrence of its body, and finish() labels by position.
+\* The round trip is the identity exactly when no two entries have equal bodies - which is why a registry keyed by
+\* type identity must NOT be converted through the builder (two identities may have equal definitions).
+FirstOcc(bs, k) == CHOOSE i \in 1..k : bs[i] = bs[k] /\ \A j \in 1..(i - 1) : bs[j] # bs[k]
+RebuildOK(e) ==
+  LET bs == [k \in 1..Len(e.types) |-> Body(e.types[k])]
+      firsts == SelectSeq([k \in 1..Len(bs) |-> k], LAMBDA k : FirstOcc(bs, k) = k)
+      PosOf(k) == CHOOSE p \in 1..Len(firsts) : firsts[p] = FirstOcc(bs, k) IN
+  /\ e.rebuilt = [p \in 1..Len(firsts) |-> WithId(bs[firsts[p]], p - 1)]
+  /\ e.ids = [k \in 1..Len(bs) |-> PosOf(k) - 1]
+  /\ ((\A i, j \in 1..Len(bs) : bs[i] = bs[j] => i = j) /\ WellFormed(e.types)) => e.rebuilt = e.types
 \* --- re-executions (C11 ii, iii) ---
 Iso(e) == RegIso(e.types1, e.types2,
                  {<<e.roots1[p[1]][2], e.roots2[p[2]][2]>> : p \in {q \in (1..Len(e.roots1)) \X (1..Len(e.roots2)) : e.roots1[q[1]][1] = e.roots2[q[2]][1]}})
@@ -121,6 +136,7 @@ TReexec == /\ Quiescent /\ ret = NoRet
            /\ \/ Ev("Replay") /\ (Check = "C11" => Rec[l].a = Rec[l].b)
               \/ Ev("Perm") /\ (Check = "C11" => Iso(Rec[l]))
               \/ Ev("Panic") /\ Check # "C02"          \* registration must terminate normally: C02's statement
+              \/ Ev("Rebuild") /\ (Check = "X02" => RebuildOK(Rec[l]))
               \/ Ev("Decoded") /\ (Check = "C01" => ("ok" \in DOMAIN Rec[l].res /\ WellFormed(Rec[l].res.ok[1]) /\ ResolveOK(Rec[l].res.ok[1])))
            /\ l' = l + 1 /\ UNCHANGED <<info, table, types, stack, evals, ret, prev, seen>>
 
